@@ -97,6 +97,74 @@ def simplex_vertices(order):
         vs.append(tuple(p))
     return vs
 
+def _tree(n, op, atoms):
+    """n is a nest of `op` calls whose leaves are exactly the given atoms"""
+    leaves = []
+    def go(m):
+        if m.op == op:
+            go(m.args[0]); go(m.args[1])
+        else:
+            leaves.append(m)
+    go(n)
+    return n.op == op and len(leaves) == len(atoms) and {l.id for l in leaves} == {a.id for a in atoms}
+
+def implementation_ranges(ck, ctx, fwd, fa):
+    """H in [0,360), S <= 1, L in [0,1] for the values the binary32 code computes on all of [0,1]^3
+    (direct enclosures of the computed values; two monotonicity-of-rounding lemmas, stated below)"""
+    from engine import realerr
+    from engine.ival import I
+    atoms = list(fa.values()) if isinstance(fa, dict) else list(fa)
+    def lemmas(n):
+        # (Q) |fl(a - b)| <= fl(max - min) for inputs a, b of the pixel, hence |fl(a-b) / fl(max-min)| <= 1 (rounding is monotone)
+        if n.op == 'fdiv' and n.args[0].op == 'fsub' and n.args[1].op == 'fsub':
+            a, b = n.args[0].args; mx, mn = n.args[1].args
+            if a.id in {x.id for x in atoms} and b.id in {x.id for x in atoms} and _tree(mx, 'call:max', atoms) and _tree(mn, 'call:min', atoms):
+                return I(-1.0, 1.0)
+        # (M) fl(fl(max + min)/2) <= max because max + min <= 2 max and rounding is monotone: max - l >= 0
+        if n.op == 'fsub' and n.args[1].op == 'fdiv' and n.args[1].args[1].is_const and n.args[1].args[1].val == 2.0:
+            mx = n.args[0]; sm = n.args[1].args[0]
+            if sm.op == 'fadd' and sm.args[0] is mx and _tree(mx, 'call:max', atoms) and _tree(sm.args[1], 'call:min', atoms):
+                return I(0.0, float('inf'))
+        return None
+    env = {a.id: I(0.0, 1.0) for a in atoms}
+    names = ['H', 'S', 'L']
+    want = {'H': (0.0, 360.0, True), 'S': (None, 1.0, False), 'L': (0.0, 1.0, False)}
+    for nm, e in zip(names, fwd.fields):
+        key = f"C17/computed-range/{nm}"
+        try:
+            V, E, R = realerr.errprop(e, env, None, lemmas, total=True)
+        except (Unsupported, ZeroDivisionError) as ex:
+            ck.ob(key, 'UNDECIDED', f"range of the computed {nm} not established: {ex}"); continue
+        lo, hi, strict = want[nm]
+        ok = (lo is None or R.lo >= lo) and (R.hi < hi if strict else R.hi <= hi)
+        if ok:
+            ck.ob(key, 'PROVED', f"computed {nm} lies in [{R.lo:.6g}, {R.hi:.9g}] for every pixel of [0,1]^3" + (' (upper bound only; S >= 0 is decided at formula level)' if nm == 'S' else ''))
+        else:
+            w = range_witness(ctx, e, atoms, lo, hi, strict) 
+            ck.ob(key, 'REFUTED' if w else 'UNDECIDED',
+                  (f"the pixel {w[0]} gives {nm} = {w[1]!r}, outside the documented range" if w else f"enclosure [{R.lo:.6g}, {R.hi:.9g}] of the computed {nm} is not inside the documented range"))
+    ck.count('range_obligations', 3)
+
+def range_witness(ctx, e, atoms, lo, hi, strict):
+    """constant folding of the kernel at saturated colours whose maximum has low-order mantissa bits set"""
+    cands = []
+    for k in range(1, 9):
+        for j in (1, 3, 5, 2, 7):
+            cands.append(X.fround(X.F32, 2.0 ** -k * (1 + j * 2.0 ** -23)))
+            cands.append(X.fround(X.F32, 2.0 ** -k * (1 + 0.5 + j * 2.0 ** -23)))
+    import itertools
+    for m in cands:
+        for pos in range(3):
+            for other in (0.0, m / 2):
+                p = [other, other, other]; p[pos] = m
+                if other: p[(pos + 1) % 3] = 0.0
+                r = fold(e, {a.id: X.const(a.ty, v) for a, v in zip(atoms, p)}, ctx.crate)
+                if r.is_const and r.val == r.val:
+                    v = r.val
+                    if (lo is not None and v < lo) or (v >= hi if strict else v > hi):
+                        return (p, v)
+    return None
+
 def run(tier):
     ck = Check('C17', tier, 'proof', 'per-cell branch resolution of the kernels extracted from MIR (exact rational evaluation at a generic point) + rational-function identities (sympy) + linear inequalities at simplex vertices; exact folding for the documentation clause')
     ctx = Ctx('K1')
@@ -181,6 +249,7 @@ def run(tier):
             vals.append(leaves)
         ok = all(len(v) == 1 and list(v)[0].is_const and list(v)[0].val == want for v in vals)
         ck.ob(f"C17/doc/L={lv}", 'PROVED' if ok else 'REFUTED', f"L = {lv} gives ({want},{want},{want}) for every finite hue and saturation" if ok else f"L = {lv} gives {[[X.show(x, 4) for x in v] for v in vals]}")
+    implementation_ranges(ck, ctx, fwd, fa)
     ck.floor('cells', 12)
     ck.note('not_decided', ['tolerances under rounding (L 1e-6, S 1e-4, H 0.01 deg, round trip 1e-5)', 'S <= 1 under rounding', 'the epsilon-slivers around ties, black and white'])
     return ck.finish()
